@@ -588,6 +588,216 @@ def Ivs.indexOk (s : Ivs) (oi : Nat × Nat) : Bool :=
     | some c => decide (oi.2 < c)
     | none => false
 
+/-! ### GDEF / GSUB / GPOS / BASE / COLR: references into variation data
+
+  Written from the OpenType spec ("OpenType Layout Common Table Formats", GPOS, GDEF chapters).
+  A `VariationIndex` table is a Device table whose deltaFormat is 0x8000: (outer, inner) at bytes 0..4. -/
+
+/-- ItemVariationStore referenced by a u32 offset at `at` when `minor ≥ need`; `some none` = no store. -/
+def parseStoreAt (t : Tbl) (need at_ : Nat) : Option (Option Ivs) := do
+  let minor ← t.u16 2
+  if minor < need then pure none
+  else
+    let off ← t.u32 at_
+    if off = 0 then pure none else some <$> parseIvs (← t.from? off)
+
+def parseGdefIvs (t : Tbl) : Option (Option Ivs) := parseStoreAt t 3 14
+def parseBaseIvs (t : Tbl) : Option (Option Ivs) := parseStoreAt t 1 8
+
+/-- COLR v1 itemVariationStoreOffset (u32 at 30) -/
+def parseColrIvs (t : Tbl) : Option (Option Ivs) := do
+  let v ← t.u16 0
+  if v = 0 then pure none
+  else
+    let off ← t.u32 30
+    if off = 0 then pure none else some <$> parseIvs (← t.from? off)
+
+/-- Device / VariationIndex table at `off` of `t`: `some (some (outer, inner))` for a VariationIndex,
+    `some none` for a hinting Device table, `none` if malformed. -/
+def readVarIdx (t : Tbl) (off : Nat) : Option (Option (Nat × Nat)) := do
+  let a ← t.u16 off
+  let b ← t.u16 (off + 2)
+  let fmt ← t.u16 (off + 4)
+  if fmt = 0x8000 then pure (some (a, b))
+  else if 1 ≤ fmt ∧ fmt ≤ 3 then pure none
+  else none
+
+def bitSet (n i : Nat) : Bool := n / 2 ^ i % 2 = 1
+
+def valueRecordSize (fmt : Nat) : Nat := 2 * ((List.range 8).filter (bitSet fmt)).length
+
+/-- variation indices referenced by the ValueRecord at `p` (device offsets are relative to `t`) -/
+def valueRecordVarIdx (t : Tbl) (p fmt : Nat) : Option (List (Nat × Nat)) := do
+  let nPlain := ((List.range 4).filter (bitSet fmt)).length
+  let devs := ([4, 5, 6, 7].filter (bitSet fmt)).zipIdx
+  let idx ← devs.mapM fun (_, k) => do
+    let off ← t.u16 (p + 2 * nPlain + 2 * k)
+    if off = 0 then pure none else readVarIdx t off
+  pure (idx.filterMap id)
+
+/-- Anchor table at offset `off` of `t` (0 = NULL) -/
+def anchorVarIdx (t : Tbl) (off : Nat) : Option (List (Nat × Nat)) :=
+  if off = 0 then some [] else do
+    let a ← t.from? off
+    let fmt ← a.u16 0
+    if fmt = 3 then
+      let xd ← a.u16 6
+      let yd ← a.u16 8
+      let x ← if xd = 0 then pure none else readVarIdx a xd
+      let y ← if yd = 0 then pure none else readVarIdx a yd
+      pure ([x, y].filterMap id)
+    else if fmt = 1 ∨ fmt = 2 then pure [] else none
+
+/-- a count-prefixed matrix of anchor offsets (BaseArray / Mark2Array / LigatureAttach), `cols` per row -/
+def anchorMatrixVarIdx (t : Tbl) (cols : Nat) : Option (List (Nat × Nat)) := do
+  let rows ← t.u16 0
+  let ls ← readMany (rows * cols) fun k => do anchorVarIdx t (← t.u16 (2 + 2 * k))
+  pure ls.flatten
+
+def markArrayVarIdx (t : Tbl) : Option (List (Nat × Nat)) := do
+  let n ← t.u16 0
+  let ls ← readMany n fun k => do anchorVarIdx t (← t.u16 (2 + 4 * k + 2))
+  pure ls.flatten
+
+/-- one GPOS subtable of (non-extension) lookup type `ty` -/
+def gposSubtableVarIdx (ty : Nat) (st : Tbl) : Option (List (Nat × Nat)) := do
+  let fmt ← st.u16 0
+  if ty = 1 then
+    let vf ← st.u16 4
+    if fmt = 1 then valueRecordVarIdx st 6 vf
+    else if fmt = 2 then
+      let n ← st.u16 6
+      let ls ← readMany n fun k => valueRecordVarIdx st (8 + valueRecordSize vf * k) vf
+      pure ls.flatten
+    else none
+  else if ty = 2 then
+    let vf1 ← st.u16 4
+    let vf2 ← st.u16 6
+    let s1 := valueRecordSize vf1
+    let s2 := valueRecordSize vf2
+    if fmt = 1 then
+      let n ← st.u16 8
+      let ls ← readMany n fun k => do
+        let ps ← st.from? (← st.u16 (10 + 2 * k))
+        let cnt ← ps.u16 0
+        let rs ← readMany cnt fun j => do
+          let p := 2 + (2 + s1 + s2) * j
+          let a ← valueRecordVarIdx ps (p + 2) vf1
+          let b ← valueRecordVarIdx ps (p + 2 + s1) vf2
+          pure (a ++ b)
+        pure rs.flatten
+      pure ls.flatten
+    else if fmt = 2 then
+      let c1 ← st.u16 12
+      let c2 ← st.u16 14
+      let ls ← readMany (c1 * c2) fun k => do
+        let p := 16 + (s1 + s2) * k
+        let a ← valueRecordVarIdx st p vf1
+        let b ← valueRecordVarIdx st (p + s1) vf2
+        pure (a ++ b)
+      pure ls.flatten
+    else none
+  else if ty = 3 then
+    let n ← st.u16 4
+    let ls ← readMany (2 * n) fun k => do anchorVarIdx st (← st.u16 (6 + 2 * k))
+    pure ls.flatten
+  else if ty = 4 ∨ ty = 6 then
+    let classes ← st.u16 6
+    let marks ← markArrayVarIdx (← st.from? (← st.u16 8))
+    let bases ← anchorMatrixVarIdx (← st.from? (← st.u16 10)) classes
+    pure (marks ++ bases)
+  else if ty = 5 then
+    let classes ← st.u16 6
+    let marks ← markArrayVarIdx (← st.from? (← st.u16 8))
+    let la ← st.from? (← st.u16 10)
+    let n ← la.u16 0
+    let ls ← readMany n fun k => do anchorMatrixVarIdx (← la.from? (← la.u16 (2 + 2 * k))) classes
+    pure (marks ++ ls.flatten)
+  else if ty = 7 ∨ ty = 8 then pure []
+  else none
+
+/-- every VariationIndex referenced from a GPOS lookup (extension lookups resolved) -/
+def gposVarIdx (t : Tbl) : Option (List (Nat × Nat)) := do
+  let ll ← t.from? (← t.u16 8)
+  let n ← ll.u16 0
+  let ls ← readMany n fun i => do
+    let lk ← ll.from? (← ll.u16 (2 + 2 * i))
+    let ty ← lk.u16 0
+    let subs ← lk.u16 4
+    let ss ← readMany subs fun j => do
+      let st ← lk.from? (← lk.u16 (6 + 2 * j))
+      if ty = 9 then
+        let ety ← st.u16 2
+        if ety = 9 then none
+        gposSubtableVarIdx ety (← st.from? (← st.u32 4))
+      else gposSubtableVarIdx ty st
+    pure ss.flatten
+  pure ls.flatten
+
+/-- GDEF LigCaretList: CaretValueFormat3 device tables -/
+def gdefCaretVarIdx (t : Tbl) : Option (List (Nat × Nat)) := do
+  let off ← t.u16 8
+  if off = 0 then pure []
+  else
+    let lc ← t.from? off
+    let n ← lc.u16 2
+    let ls ← readMany n fun i => do
+      let lg ← lc.from? (← lc.u16 (4 + 2 * i))
+      let k ← lg.u16 0
+      let cs ← readMany k fun j => do
+        let cv ← lg.from? (← lg.u16 (2 + 2 * j))
+        let fmt ← cv.u16 0
+        if fmt = 3 then
+          let d ← cv.u16 4
+          if d = 0 then pure none else readVarIdx cv d
+        else if fmt = 1 ∨ fmt = 2 then pure none else none
+      pure (cs.filterMap id)
+    pure ls.flatten
+
+structure FeatVars where
+  /-- axisIndex of every format-1 condition, in table order -/
+  condAxes : List Nat
+  /-- featureIndex of every FeatureTableSubstitution record -/
+  substFeatures : List Nat
+  featureCount : Nat
+  records : Nat
+  deriving Repr
+
+/-- GSUB/GPOS FeatureVariations (header minor version ≥ 1, offset at 10); `some none` = not present -/
+def parseFeatureVariations (t : Tbl) : Option (Option FeatVars) := do
+  let minor ← t.u16 2
+  if minor < 1 then pure none
+  else
+    let off ← t.u32 10
+    if off = 0 then pure none
+    else
+      let featureCount ← t.u16 (← t.u16 6)
+      let fv ← t.from? off
+      let n ← fv.u32 4
+      let recs ← readMany n fun i => do
+        let cso ← fv.u32 (8 + 8 * i)
+        let fso ← fv.u32 (8 + 8 * i + 4)
+        let conds ← if cso = 0 then pure [] else do
+          let cs ← fv.from? cso
+          let k ← cs.u16 0
+          let cl ← readMany k fun j => do
+            let c ← cs.from? (← cs.u32 (2 + 4 * j))
+            let fmt ← c.u16 0
+            if fmt = 1 then
+              -- the whole record (format, axisIndex, min, max) must be inside the table
+              let _ ← c.u16 6
+              some <$> c.u16 2
+            else pure none
+          pure (cl.filterMap id)
+        let subst ← if fso = 0 then pure [] else do
+          let fs ← fv.from? fso
+          let k ← fs.u16 4
+          readMany k fun j => do
+            let _ ← fs.u32 (6 + 6 * j + 2)
+            fs.u16 (6 + 6 * j)
+        pure (conds, subst)
+      pure (some ⟨(recs.map (·.1)).flatten, (recs.map (·.2)).flatten, featureCount, n⟩)
+
 /-! ## The whole-font oracle of C05
 
   `wellFormedFont` returns the list of failed clauses (empty = the font passes) and the numbers it
@@ -761,6 +971,31 @@ def fontChecks (f : Font) (r : FontReport) : FontReport := Id.run do
     | some ivs =>
       r := checkIvs r "MVAR" ivs axes?
       r := r.failIf (mv.recs.any fun oi => !ivs.indexOk oi) "delta-set-index:MVAR"
+  -- variation stores of the layout / colour tables agree with fvar on the axis count
+  let (r1, gdefIvs?) := parseOpt f "GDEF" parseGdefIvs r; r := r1
+  let gdefIvs : Option Ivs := gdefIvs?.join
+  if let some ivs := gdefIvs then r := checkIvs r "GDEF" ivs axes?
+  let (r1, baseIvs?) := parseOpt f "BASE" parseBaseIvs r; r := r1
+  if let some ivs := baseIvs?.join then r := checkIvs r "BASE" ivs axes?
+  let (r1, colrIvs?) := parseOpt f "COLR" parseColrIvs r; r := r1
+  if let some ivs := colrIvs?.join then r := checkIvs r "COLR" ivs axes?
+  -- FeatureVariations: condition axis indices are fvar axis indices; substituted features exist
+  for tag in ["GSUB", "GPOS"] do
+    let (r1, fv?) := parseOpt f tag parseFeatureVariations r; r := r1
+    if let some fv := fv?.join then
+      r := r.note s!"{tag}.condAxes" fv.condAxes |>.note s!"{tag}.featureVariationRecords" [fv.records]
+      r := r.failIf (fv.condAxes.any (· ≥ axes?.getD 0)) s!"condition-axis:{tag}"
+      r := r.failIf (fv.substFeatures.any (· ≥ fv.featureCount)) s!"feature-subst-index:{tag}"
+  -- every VariationIndex of GPOS / GDEF resolves inside the GDEF store
+  let (r1, gposIdx?) := parseOpt f "GPOS" gposVarIdx r; r := r1
+  let (r1, caretIdx?) := parseOpt f "GDEF" gdefCaretVarIdx r; r := r1
+  let varIdx := (gposIdx?.getD []) ++ (caretIdx?.getD [])
+  if gposIdx?.isSome ∨ caretIdx?.isSome then
+    r := r.note "varIdx" (dedupSorted (sortNat (varIdx.map fun oi => oi.1 * 65536 + oi.2)))
+  if !varIdx.isEmpty then
+    match gdefIvs with
+    | none => r := r.fail "variation-index:no-GDEF-store"
+    | some ivs => r := r.failIf (varIdx.any fun oi => !ivs.indexOk oi) "variation-index:GDEF-store"
   return r
 
 /-- C05 on raw font bytes: container (`wellFormedSfnt`) + TrueType flavour + table-level clauses. -/
